@@ -115,3 +115,63 @@ MUL = Contract(
     note='`(x << L) | v` is x * 2**L + v for 0 <= v < 2**L (python ints, A-BUILTIN); rep(n) is the number whose binary form is '
          'n copies of the L-bit pattern')
 CONTRACTS = CONTRACTS + [MUL]
+
+
+# ---- the other operators that build a new bit pattern: concatenation, shifts -----------------------------------------------------
+W0, K0 = Int('other.value'), Int('other.bits')
+CNT = Int('count')
+
+
+def _op_sized(v, bits):
+    me = sized(v, bits)
+
+    def lshift(ex, self, k):
+        r = self.fields['value'] * ex.X.pow2(k)
+        if not hasattr(ex, 'lshift_width'):
+            ex.lshift_width = {}
+        ex.lshift_width[r.get_id()] = toint(k)
+        return r
+
+    def ror(ex, self, other):
+        w = getattr(ex, 'lshift_width', {}).get(toint(other).get_id())
+        if w is not None and not ex.feasible(Not(toint(w) == self.fields['bitLength'])):
+            return toint(other) + self.fields['value']           # disjoint bits: | is + (requires 0 <= value < 2**bits)
+        return BIT_OR(toint(other), self.fields['value'])
+
+    def rshift(ex, self, k):
+        return self.fields['value'] / ex.X.pow2(k)
+    me.methods.update({'__lshift__': lshift, '__ror__': ror, '__rshift__': rshift})
+    return me
+
+
+def _op_self(ex, env):
+    def clone(ex2, self, value=None, **kw):
+        return Obj('BitString', {'value': value.fields['value'], 'bitLength': value.fields['bitLength']}, name='result')
+    other = _op_sized(W0, K0)
+    return Obj('BitString', {'_value': _op_sized(V0, L0_)}, {'clone': clone, 'prettyIn': lambda ex2, self, v: other}, name='self')
+
+
+_OPG = {'SizedInteger': FnV(_sized_ctor, 'SizedInteger'), 'V': V0, 'L': L0_, 'W': W0, 'K': K0, 'max': FnV(
+    lambda ex, a, b: If(toint(a) >= toint(b), toint(a), toint(b)), 'max')}
+_OPR = ['L >= 0', 'V >= 0', 'V < X.pow2f(L)', 'K >= 0', 'W >= 0', 'W < X.pow2f(K)']
+ADD = Contract(
+    id='type.univ::BitString.__add__', file=U, qual='BitString.__add__', properties=['C14', 'C19'],
+    params=dict(self=PDerived(_op_self), value=PConst(Obj('Operand', {}, name='value'))), globals=_OPG, requires=_OPR,
+    ensures=[('own-bits-then-the-operands', 'result.value == V * X.pow2f(K) + W and result.bitLength == L + K')],
+    note='prettyIn (the operand as a SizedInteger of K bits) is an assumed model; `(x << K) | w` is x * 2**K + w for 0 <= w < 2**K')
+RADD = Contract(
+    id='type.univ::BitString.__radd__', file=U, qual='BitString.__radd__', properties=['C14', 'C19'],
+    params=dict(self=PDerived(_op_self), value=PConst(Obj('Operand', {}, name='value'))), globals=_OPG, requires=_OPR,
+    ensures=[('the-operands-bits-then-own', 'result.value == W * X.pow2f(L) + V and result.bitLength == L + K')],
+    note=ADD.note)
+LSHIFT = Contract(
+    id='type.univ::BitString.__lshift__', file=U, qual='BitString.__lshift__', properties=['C14', 'C19', 'C01'],
+    params=dict(self=PDerived(_op_self), count=PConst(CNT)), globals=_OPG, requires=_OPR + ['count >= 0'],
+    ensures=[('zero-bits-appended', 'result.value == V * X.pow2f(count) and result.bitLength == L + count')])
+RSHIFT = Contract(
+    id='type.univ::BitString.__rshift__', file=U, qual='BitString.__rshift__', properties=['C14', 'C19'],
+    params=dict(self=PDerived(_op_self), count=PConst(CNT)), globals=_OPG, requires=_OPR + ['count >= 0'],
+    ensures=[('low-bits-dropped', 'result.value == shr(V, count)'),
+             ('length-shrinks-to-zero-at-most', 'result.bitLength == (L - count if L - count > 0 else 0)')])
+RSHIFT.globals = dict(_OPG, shr=FnV(lambda ex, v, k: toint(v) / ex.X.pow2(k), 'shr'))
+CONTRACTS = CONTRACTS + [ADD, RADD, LSHIFT, RSHIFT]
